@@ -15,6 +15,8 @@ structure Arg where
   kw : Option String
   star : Star
   val : String
+  /-- the value is a generator expression without parentheses of its own (`f(x for x in y)`) -/
+  gen : Bool := false
   deriving DecidableEq, Repr
 
 /-- `NewArg(name, value, add_if_missing)` -/
@@ -74,5 +76,19 @@ def wfC : Bool → Bool → List Cls → Bool
     | .dstar => wfC true true t
 
 def wf (args : List Arg) : Bool := wfC false false (args.map cls)
+
+/-- `_parenthesize_bare_generators`: once a call has two arguments or more, a generator gets its own parentheses -/
+def parenGens (args : List Arg) : List Arg :=
+  if args.length < 2 then args
+  else args.map fun a => if a.gen then { a with gen := false, val := "(" ++ a.val ++ ")" } else a
+
+/-- `update_arg_target(node, new_args)` as it is now -/
+def updateArgTarget (newArgs : List Arg) : List Arg := parenGens newArgs
+
+/-- `add_arg_to_call(node, name, value)` as it is now -/
+def addArgToCall (args : List Arg) (name value : String) : List Arg := parenGens (addArg args name value)
+
+/-- the ordering rule plus: a bare generator is only legal as the sole argument -/
+def wfGen (args : List Arg) : Bool := wf args && (decide (args.length ≤ 1) || args.all (!·.gen))
 
 end CM.Args
